@@ -32,6 +32,7 @@ func UTF8Len
 func TabWidth
   ensures currentPos >= 0 ==> result == 4 - currentPos % 4
   ensures currentPos >= 0 ==> 1 <= result && result <= 4
+  ensures 1 <= result && result <= 7
   modifies nothing
 
 func IsEscapedPunctuation
@@ -49,6 +50,12 @@ func ToRune
 func Prioritized
   nilable v
   modifies nothing
+
+func IndentWidth
+  ensures 0 <= pos && pos <= len(bs) && width >= 0
+  ensures pos < len(bs) ==> (bs[pos] != ' ' && bs[pos] != '\t')
+  modifies nothing
+  loop 0 inv 0 <= i && i <= l && l == len(bs) && pos == i && width >= 0
 
 func TrimLeftSpaceLength
   ensures 0 <= result && result <= len(source)
